@@ -83,6 +83,12 @@ def ensure_makefile():
 
 def coq_make(targets, timeout=1500):
     ensure_makefile()
+    # a target that is not listed in _CoqProject has no rule: a stale .vo would be accepted silently
+    with open(os.path.join(COQ, '_CoqProject')) as fh:
+        listed = set(l.strip() for l in fh)
+    missing = [t for t in targets if t[:-1] not in listed]
+    if missing:
+        return 2, "targets not listed in coq/_CoqProject: %s" % " ".join(missing)
     rc, out = sh("timeout %d make -j16 %s" % (timeout, " ".join(targets)), cwd=COQ, timeout=timeout + 30)
     return rc, out
 
